@@ -3,6 +3,7 @@ import Apko.Generated.Conflict
 import Apko.Proofs.Lemmas.Conflict
 import Apko.Proofs.Lemmas.ConflictSort
 import Apko.Proofs.Lemmas.ConflictInv
+import Apko.Proofs.Lemmas.ConflictRefine
 /-!
 # C07 — file conflicts follow the replaces/origin rules; the installed db tells the truth
 
@@ -305,6 +306,60 @@ theorem idb_truth_partial (c : Cfg) (hc : c.spec = false) (base : List Entry) (p
 
 example : WF { name := "usr/bin/x".toList, kind := .reg } := by
   intro _; decide
+
+/-! ## impl_refines_spec: without a ghost flag the code does what the rule table says -/
+
+/-- **impl_refines_spec** (the "content decided by the rules" part of the oracle, as a refinement): for
+every backend, every base tree and every ordered package list, an Impl run — successful or not — that
+ends without a ghost flag IS the Spec run (`Cfg.spec = true`: the rule table instead of the code's
+decisions): the same outcome, the same tree (so the content of every regular file is the one the rules
+choose), the same `installedFiles`, the same decision log and the same `files` of every package.  No
+hypothesis on header names. -/
+theorem impl_refines_spec (c : Cfg) (hc : c.spec = false) (base : List Entry) (pkgs : List Pkg)
+    (h : resFlags (installAll c base pkgs) = []) :
+    installAll { c with spec := true } base pkgs = installAll c base pkgs := by
+  unfold installAll at h ⊢
+  exact installFrom_refines c hc pkgs pkgs 0 { tree := baseTree base } [] h
+
+/-- the successful case spelled out -/
+theorem impl_refines_spec_ok (c : Cfg) (hc : c.spec = false) (base : List Entry) (pkgs : List Pkg)
+    (st : St) (all : List (List Entry)) (h : installAll c base pkgs = .ok (st, all)) (hfl : st.flags = []) :
+    installAll { c with spec := true } base pkgs = .ok (st, all) := by
+  rw [impl_refines_spec c hc base pkgs (by rw [h]; exact hfl), h]
+
+/-- …and a refused build: the Spec refuses it with the same outcome -/
+theorem impl_refines_spec_error (c : Cfg) (hc : c.spec = false) (base : List Entry) (pkgs : List Pkg)
+    (o : Outcome) (h : installAll c base pkgs = .error (o, [])) :
+    installAll { c with spec := true } base pkgs = .error (o, []) := by
+  rw [impl_refines_spec c hc base pkgs (by rw [h]; rfl), h]
+
+/-- the hypothesis is needed, and the flag classes of the decision are the only way to lose it for
+regular files with complete parents: F07b (two empty origins: tarfs overwrites, the rules say conflict)
+and F07h (`replaces = a<2`: the code reports a conflict, the rules let `b` win) are runs whose only flag
+is the decision flag and whose Impl and Spec outcomes differ -/
+def pkgsB : List Pkg :=
+  [{ name := ['a'], version := "1-r0".toList, entries := [{ name := ['u', '/'], kind := .dir, mode := 0o755 }, { name := ['u', '/', 'x'], kind := .reg, sum := ['1'] }] },
+   { name := ['b'], version := "1-r0".toList, entries := [{ name := ['u', '/'], kind := .dir, mode := 0o755 }, { name := ['u', '/', 'x'], kind := .reg, sum := ['2'] }] }]
+
+def pkgsH : List Pkg :=
+  [{ name := ['a'], version := "1-r0".toList, origin := "oa".toList, entries := [{ name := ['u', '/'], kind := .dir, mode := 0o755 }, { name := ['u', '/', 'x'], kind := .reg, sum := ['1'] }] },
+   { name := ['b'], version := "1-r0".toList, origin := "ob".toList, replaces := ["a<2".toList],
+     entries := [{ name := ['u', '/'], kind := .dir, mode := 0o755 }, { name := ['u', '/', 'x'], kind := .reg, sum := ['2'] }] }]
+
+def outcomeOf (r : Except (Outcome × List Flag) (St × List (List Entry))) : Outcome × List Flag :=
+  match r with
+  | .ok (st, _) => (.ok, st.flags)
+  | .error x => x
+
+theorem impl_differs_emptyOrigin :
+    outcomeOf (installAll { backend := .lazy } [] pkgsB) = (.ok, [.emptyOrigin ['u', '/', 'x']]) ∧
+    outcomeOf (installAll { backend := .lazy, spec := true } [] pkgsB) = (.conflict ['u', '/', 'x'], []) ∧
+    outcomeOf (installAll { backend := .memfs } [] pkgsB) = (.exists_, [.emptyOrigin ['u', '/', 'x']]) := by decide
+
+theorem impl_differs_versioned (b : Backend) :
+    outcomeOf (installAll { backend := b } [] pkgsH) = (.conflict ['u', '/', 'x'], [.versioned ['u', '/', 'x']]) ∧
+    outcomeOf (installAll { backend := b, spec := true } [] pkgsH) = (.ok, []) := by
+  cases b <;> decide
 
 /-! ## negation witnesses (each is also replayed on the real code: corpus/conflict/F07b.json, F07c.json) -/
 
